@@ -1047,7 +1047,9 @@ class FortranBackend(BaseBackend):
 
     def _get_func_info(self, name: str, shape: tuple = (), dtype: str = 'float'):
 
-        func_info = self._funcs[name]
+        # work on a copy: `self._funcs` is a shallow copy of the module-level registry, so writing the generated
+        # call/definition into the entry itself would change the registry for every later backend instance
+        func_info = dict(self._funcs[name])
 
         # case I: generate shape-specific fortran function call
         if callable(func_info['call']):
